@@ -22,7 +22,7 @@ pub fn rand_cfg(rng: &mut Rng, decos: &[u8], ovf: bool, nolw: bool) -> Cfg {
         c.overflow = true;
     }
     if rng.chance(1, 6) {
-        c.min_wrap = Some(*rng.pick(&[1usize, 2, 3, 4, 5, 8, 12]));
+        c.min_wrap = Some(*rng.pick(&[0usize, 1, 2, 3, 4, 5, 8, 12]));
     }
     if rng.chance(1, 8) {
         c.raw = *rng.pick(&[1u8, 2]);
@@ -298,6 +298,34 @@ fn gen_c02(tier: &str, rng: &mut Rng) -> Vec<Case> {
         let id = cases.len();
         cases.push(mk_case(id, 0, cfg, width, bytes, Some(0), g(""), "grammar"));
     }
+    // prefixes that use up (almost) the whole width: tiny content in 1-3 nested prefixed blocks,
+    // widths 1..6, every mix of max_wrap_width / min_wrap_width(0..2) / padding
+    let np = if tier == "thorough" { 40000 } else { 3000 };
+    for _ in 0..np {
+        let content = *rng.pick(&["x", "x y", "ab", "", "&#8203;", "中", "<em>x</em>", "x<br>y", "<a href=\"u\">x</a>", "<table><tr><td>x</td></tr></table>"]);
+        let mut html = content.to_string();
+        for _ in 0..rng.range(1, 3) {
+            html = match rng.below(6) {
+                0 => format!("<ul><li>{}</li></ul>", html),
+                1 => format!("<ol><li>{}</li></ol>", html),
+                2 => format!("<blockquote>{}</blockquote>", html),
+                3 => format!("<h1>{}</h1>", html),
+                4 => format!("<dl><dt>t</dt><dd>{}</dd></dl>", html),
+                _ => format!("<ol start=\"99\"><li>{}</li><li>z</li></ol>", html),
+            };
+        }
+        let mut cfg = Cfg { deco: *rng.pick(&[0u8, 1, 2, 3]), ..Default::default() };
+        if rng.chance(1, 2) {
+            cfg.max_wrap = Some(rng.range(0, 10));
+        }
+        if rng.chance(1, 2) {
+            cfg.min_wrap = Some(rng.range(0, 3));
+        }
+        cfg.pad = rng.chance(1, 4);
+        let width = rng.range(1, 6);
+        let id = cases.len();
+        cases.push(mk_case(id, 0, cfg, width, html.into_bytes(), Some(0), g(""), "narrow_prefix"));
+    }
     cases
 }
 fn check_c02(cases: &[Case], results: &[Option<RunResult>]) -> Vec<Violation> {
@@ -346,6 +374,12 @@ fn gen_c10(tier: &str, rng: &mut Rng) -> Vec<Case> {
     let mut cases = Vec::new();
     for gi in 0..n {
         let (html, _) = gen_doc(rng, GenOpts::all());
+        // now and then a document that renders to (almost) nothing
+        let html = if rng.chance(1, 12) {
+            rng.pick(&["<br>", "<p><br></p>", "<div><br></div>", "<pre>\n\n</pre>", "", " ", "<p></p>", "<br><br>", "<p>&#8203;</p>", "<hr>", "<ul><li></li></ul>", "<p id=\"x\"></p>"]).to_string()
+        } else {
+            html
+        };
         let bytes = html.into_bytes();
         let cfg = rand_cfg(rng, &[0, 1, 2, 3], true, true);
         let nw = rng.range(2, 6);
@@ -487,6 +521,7 @@ fn gen_c11(tier: &str, rng: &mut Rng) -> Vec<Case> {
     for gi in 0..n {
         let tables = rng.chance(1, 3);
         let (mut html, _) = gen_doc(rng, GenOpts { tables: if tables { 2 } else { 0 }, nested_tables: tables, ..GenOpts::all() });
+        let mut css_root = rng.chance(1, 40);
         // prefixed blocks without any content (their minimum width is 0)
         if rng.chance(1, 6) {
             let e = *rng.pick(&[
@@ -498,6 +533,7 @@ fn gen_c11(tier: &str, rng: &mut Rng) -> Vec<Case> {
                 "<table><tr><td>a</td><td><ul><li></li></ul></td></tr></table>",
                 "<h3></h3><ul><li><ol><li></li></ol></li></ul>",
             ]);
+            css_root = rng.chance(1, 3);
             html = if rng.chance(1, 2) { e.to_string() } else { format!("{}{}", html, e) };
         }
         let mut bytes = html.into_bytes();
@@ -507,6 +543,10 @@ fn gen_c11(tier: &str, rng: &mut Rng) -> Vec<Case> {
         let mut base = rand_cfg(rng, &[0, 1, 2, 3], false, true);
         if base.max_wrap == Some(0) {
             base.max_wrap = Some(1);
+        }
+        if css_root {
+            // the whole document (or its body) hidden by CSS: still Ok / TooNarrow, never another error
+            base.user_css.push(rng.pick(&["html { display: none; }", "body { display: none; }", "* { display: none; }", "html, body { height: 0; overflow: hidden }"]).to_string());
         }
         let mut ov = base.clone();
         ov.overflow = true;
